@@ -217,8 +217,11 @@ class DB:
     def qread(self, file):
         # type: (IO[bytes]) -> None
         """Quickly read the data from a pickled file"""
-        self.db = pickle.load(file)
-        self.rdb = pickle.load(file)
+        # load both indexes before replacing any of them, so that a truncated
+        # or corrupt file leaves the collection as it was
+        db = pickle.load(file)
+        rdb = pickle.load(file)
+        self.db, self.rdb = db, rdb
 
     def insert(self, pkg, tags):
         # type: (str, Set[str]) -> None
